@@ -440,6 +440,10 @@ def cause_of(verdict):
         return "tight_extra_rows" if rw == "WRITE" else "tight_buffer_overread"
     if "HandleTRLE" in fns and "ReadFromRFBServer" in fns and rw == "WRITE":
         return "trle_rle_overflow"
+    if "HandleZRLETile24" in fns and rw == "READ" and kind == "heap-buffer-overflow" and (FIXMASK & 32):
+        # with the remaining-data checks of 112b5b7 in place the only over-read left in the 24-bit instances is the
+        # 4-byte read of the last 3-byte CPIXEL of the scratch area
+        return "zrle_cpixel24_tail"
     if "HandleZRLE" in fns and rw == "READ" and kind == "heap-buffer-overflow":
         return "zrle_overread"
     if "HandleZRLETile" in fns and rw == "READ" and kind == "stack-buffer-overflow":
@@ -455,8 +459,19 @@ OOB_CAUSE = {40: "ultrazip_walk", 41: "ultrazip_walk", 77: "tight_extra_rows", 7
              43: "zrle_overread", 47: "zrle_overread", 44: "zrle_palette_index", 34: "zrle_palette_index"}
 
 
+CPIX_CODES = (32, 36, 39, 42, 47)      # Oob codes of cpix_at: a CPIXEL read that leaves the scratch area
+FIXMASK = 0
+
+
+def oob_cause(code):
+    if (FIXMASK & 32) and code in CPIX_CODES:
+        return "zrle_cpixel24_tail"
+    return OOB_CAUSE.get(code, "oob%d" % code)
+
+
 WITNESSES = [("w_ultrazip.script", 0), ("w_tightrows.script", 1), ("w_tightgrad.script", 2), ("w_tightnoz.script", 3),
-             ("w_trle.script", 4), ("w_zrleneg.script", 5), ("w_zrlepal.script", 6)]
+             ("w_trle.script", 4), ("w_zrleneg.script", 5), ("w_zrlepal.script", 6),
+             ("w_zrle_cpixel24.script", 8)]
 
 
 def with_fixed(tok, mask):
@@ -528,7 +543,7 @@ def judge(case, il, ml):
                 # the mirror says the C path leaves an object, the run shows no sanitizer report
                 iend = next((l for l in body if l.startswith("end ")), "")
                 if not (iend.startswith("end fail") or iend.startswith("end eof")):
-                    mism = ("model-oob", code, OOB_CAUSE.get(code, "oob%d" % code))
+                    mism = ("model-oob", code, oob_cause(code))
         elif "end desync" in ml:
             pass
         elif cause is None:
@@ -543,7 +558,8 @@ def check(ctx):
     cexe, mexe, proof_ok = build(ctx)
     rng = ctx.rng
     cases = []
-    fixmask = probe_fixes(cexe, mexe)
+    global FIXMASK
+    fixmask = FIXMASK = probe_fixes(cexe, mexe)
     ctx.coverage["fixes_detected_mask"] = fixmask
     # corpus: confirmed witnesses first
     cdir = os.path.join(vlib.VERIF, "corpus", PID)
@@ -649,8 +665,9 @@ def replay(ctx, path):
     body = txt.split("script:\n", 1)[1].split("\n\n", 1)[0]
     lines = [l for l in body.split("\n") if l.strip()]
     cexe, mexe, _ = build(ctx)
-    if not any(l.startswith("fixed ") for l in lines):
-        lines = with_fixed(lines, probe_fixes(cexe, mexe))
+    global FIXMASK
+    FIXMASK = probe_fixes(cexe, mexe)
+    lines = with_fixed([l for l in lines if not l.startswith("fixed ")], FIXMASK)
     case = dict(tok=lines, tags=["replay"], kind="implonly" if any(l.startswith("hsraw") for l in lines) else "model")
     (rc1, cout, cerr), (rc2, mout, merr) = run_all(cexe, mexe, [case])
     cc, mc = vlib.split_cases(cout), vlib.split_cases(mout)
